@@ -3,6 +3,7 @@ package main
 import (
 	"context"
 	"fmt"
+	"google.golang.org/protobuf/types/known/anypb"
 	"runtime"
 	"sync"
 	"time"
@@ -62,6 +63,8 @@ func init() {
 			{"codec", func() inprocgrpc.Cloner { return inprocgrpc.CodecCloner(codec) }},
 			{"clone-func", func() inprocgrpc.Cloner { return inprocgrpc.CloneFunc(grpchan.VerifCloneMessage) }},
 			{"copy-func", func() inprocgrpc.Cloner { return inprocgrpc.CopyFunc(grpchan.VerifCopyMessage) }},
+			// a copy function that is a correct deep copy but fills the destination in place, reusing what it holds
+			{"copy-func (field by field, in place)", func() inprocgrpc.Cloner { return inprocgrpc.CopyFunc(fieldwiseCopy) }},
 		}
 		msgDesc, _ := desc.LoadMessageDescriptorForMessage(protov1.MessageV1(&hx.Msg{}))
 		mkMsg := func(empty bool) *hx.Msg {
@@ -83,7 +86,7 @@ func init() {
 		for rp := 0; rp < rep; rp++ {
 			for ci, cl := range cloners {
 				for _, dyn := range []bool{false, true} {
-					if dyn && (ci == 1 || ci == 3) {
+					if dyn && (ci == 1 || ci == 3 || ci == 4) {
 						// Clone of a dynamic message through the codec / copy-func strategies panics (C18 finding F18),
 						// so a stream cannot even send one: nothing to probe here
 						o.Stats["skipped_dynamic_with_"+cl.name] = "Clone panics (C18 F18)"
@@ -225,6 +228,36 @@ func init() {
 					d := map[string]interface{}{"cloner": cl.name, "rpc": "unary", "context_cancelled_before_call": cancelled, "request_read_after_return": late}
 					o.Case("late_read_"+cl.name, fmt.Sprintf("Late %d %s %s", ci, hx.B(cancelled), hx.B(late)), d)
 				}
+				// ---------- a handler that keeps the response it returned (a cached value): no later traffic may change it ----------
+				{
+					cached := mkMsg(false)
+					cachedSnap := proto.Clone(cached)
+					lch := &inprocgrpc.Channel{}
+					if c := cl.mk(); c != nil {
+						lch.WithCloner(c)
+					}
+					lch.RegisterService(hx.Desc(hx.SvcName), &hx.Svc{
+						Unary: func(ctx context.Context, req *hx.Msg) (*hx.Msg, error) { return cached, nil },
+						Stream: func(kind string, ss grpc.ServerStream) error {
+							for {
+								m := &hx.Msg{}
+								if err := ss.RecvMsg(m); err != nil {
+									return nil
+								}
+								ss.SendMsg(&hx.Msg{Count: m.Count + 1, Payload: []byte("stream answer")})
+							}
+						},
+					})
+					out := &hx.Msg{}
+					err := lch.Invoke(context.Background(), "/verif.Svc/U", mkMsg(false), out)
+					got1 := proto.Equal(out, cachedSnap)
+					halfDuplex(lch, "BD", []*hx.Msg{mkMsg(false), mkMsg(false), mkMsg(true)})
+					lch.Invoke(context.Background(), "/verif.Svc/U", mkMsg(false), &hx.Msg{})
+					halfDuplex(lch, "BD", []*hx.Msg{mkMsg(false)})
+					same := proto.Equal(cached, cachedSnap)
+					d := map[string]interface{}{"cloner": cl.name, "rpc": "unary whose handler returns a cached message, then stream traffic of the same type", "first_call_ok": err == nil && got1, "cached_value_unchanged": same}
+					o.Case("cached_response_"+cl.name, fmt.Sprintf("Iso %d %s false %s true", ci, hx.Str("handler's retained response"), hx.B(same && got1 && err == nil)), d)
+				}
 				// ---------- nor write the caller's response after an abandoned unary call returned ----------
 				{
 					lch := &inprocgrpc.Channel{}
@@ -261,4 +294,45 @@ func init() {
 		o.Finding = "finding_case"
 		o.Shard = 100
 	}
+}
+
+// fieldwiseCopy is a copy function for hx.Msg that deep-copies field by field into the destination,
+// reusing the destination's own slices and maps (other types: the library's own copy)
+func fieldwiseCopy(out, in interface{}) error {
+	o, ok1 := out.(*hx.Msg)
+	i, ok2 := in.(*hx.Msg)
+	if !ok1 || !ok2 {
+		return grpchan.VerifCopyMessage(out, in)
+	}
+	o.Payload = append(o.Payload[:0], i.Payload...)
+	if i.Payload == nil {
+		o.Payload = nil
+	}
+	o.Count, o.Code, o.DelayMillis = i.Count, i.Code, i.DelayMillis
+	cpMap := func(dst *map[string][]byte, src map[string][]byte) {
+		if src == nil {
+			*dst = nil
+			return
+		}
+		if *dst == nil {
+			*dst = map[string][]byte{}
+		}
+		for k := range *dst {
+			delete(*dst, k)
+		}
+		for k, v := range src {
+			(*dst)[k] = append([]byte(nil), v...)
+		}
+	}
+	cpMap(&o.Headers, i.Headers)
+	cpMap(&o.Trailers, i.Trailers)
+	o.ErrorDetails = o.ErrorDetails[:0]
+	for _, a := range i.ErrorDetails {
+		o.ErrorDetails = append(o.ErrorDetails, proto.Clone(a).(*anypb.Any))
+	}
+	if len(i.ErrorDetails) == 0 {
+		o.ErrorDetails = nil
+	}
+	o.ProtoReflect().SetUnknown(append([]byte(nil), i.ProtoReflect().GetUnknown()...))
+	return nil
 }
